@@ -146,7 +146,8 @@ IsCRep(B, eta, WS) ==
     \A k \in DOMAIN B :
         LET v == {Kappa(B, eta, w) : w \in {x \in WS : B[k][x] = 1}}
             f == {Kappa(B, eta, w) : w \in {x \in WS : B[k][x] = 2}}
-        IN  v # {} /\ (f = {} \/ MinS(v) < MinS(f))
+        IN  \* IF, not a disjunction: inside an action TLC evaluates both disjuncts
+            v # {} /\ (IF f = {} THEN TRUE ELSE MinS(v) < MinS(f))
 
 CReps(B, WS, U) == {eta \in [DOMAIN B -> 0..U] : IsCRep(B, eta, WS)}
 
@@ -206,6 +207,43 @@ DiagBaseCons(B, WS)       == Strong(B, WS)
 DiagBaseWeak(B, WS)       == Weak(B, WS)
 DiagCombCons(B, facts, WS, extended) == ConsistentFor(Augment(B, facts, WS), WS, extended)
 DiagInfGrew(B, facts, WS) == InfSize(Augment(B, facts, WS), WS) > InfSize(B, WS)
+
+-----------------------------------------------------------------------------
+(* Laws of ranking-function operations (C18).  A ranking kap is a sequence  *)
+(* over the worlds 1..2^n; NONE (= -1) marks an undefined rank.            *)
+NONE == 0 - 1
+Defined(kap) == {w \in DOMAIN kap : kap[w] # NONE}
+(* rank of a proposition S: least rank of its worlds, NONE if it has none  *)
+FRank(kap, S) == LET D == S \cap Defined(kap) IN IF D = {} THEN NONE ELSE MinS({kap[w] : w \in D})
+(* acceptance: rank(AB) defined and smaller than rank(A not B), or the latter undefined *)
+Accepts(kap, c) ==
+    LET v == FRank(kap, Ver(c))
+        f == FRank(kap, Fal(c))
+    IN  v # NONE /\ (f = NONE \/ v < f)
+
+RECURSIVE Pow2S(_)
+Pow2S(n) == IF n = 0 THEN 1 ELSE 2 * Pow2S(n - 1)
+(* bit of atom position i (1 = most significant) in world w over n atoms *)
+BitOf(w, i, n) == ((w - 1) \div Pow2S(n - i)) % 2
+(* number of the world over the kept atoms (in order) that w projects to *)
+RECURSIVE ProjNum(_, _, _, _)
+ProjNum(w, keep, n, j) ==
+    IF j > Len(keep) THEN 0
+    ELSE BitOf(w, keep[j], n) * Pow2S(Len(keep) - j) + ProjNum(w, keep, n, j + 1)
+Proj(w, keep, n) == ProjNum(w, keep, n, 1) + 1
+(* marginalisation to the kept atoms: least rank of the extensions *)
+Marg(kap, keep, n) ==
+    [v \in 1..Pow2S(Len(keep)) |-> FRank(kap, {w \in DOMAIN kap : Proj(w, keep, n) = v})]
+(* conditionalisation: exactly the worlds of S with their ranks *)
+CondOn(kap, S) == {<<w, kap[w]>> : w \in S}
+(* layered total preorder: worlds grouped by rank, ascending *)
+RankValues(kap) == {kap[w] : w \in Defined(kap)}
+RECURSIVE SortAsc(_)
+SortAsc(S) == IF S = {} THEN <<>> ELSE LET m == MinS(S) IN <<m>> \o SortAsc(S \ {m})
+Tpo(kap) == LET vs == SortAsc(RankValues(kap)) IN [i \in DOMAIN vs |-> {w \in Defined(kap) : kap[w] = vs[i]}]
+SameOrder(k1, k2) ==
+    /\ Defined(k1) = Defined(k2)
+    /\ \A a, b \in Defined(k1) : (k1[a] < k1[b] <=> k2[a] < k2[b]) /\ (k1[a] = k1[b] <=> k2[a] = k2[b])
 
 -----------------------------------------------------------------------------
 (* Formula trees (C10, C15): <<"var", name>> | <<"top">> | <<"bot">> |      *)
